@@ -292,6 +292,9 @@ def prep(Hh, st):
         st['tag'] = 'permuted-labels' if perm is not None else st.get('tag')
 
         def expect():
+            blocks = list(a._data) + list(b._data)
+            if any(np.shares_memory(x, y) for i, x in enumerate(blocks) for y in blocks[i + 1:]):
+                return None   # aliased blocks (shallow copies, concatenate(copy=False)): values are C03's business
             bd = b.to_ndarray()
             if perm is not None:
                 bd = bd.transpose(perm)
